@@ -40,7 +40,22 @@ def check_entry(ctx, kind, tag, log):
                             "only the bytes of the pointer cell are written")
             elif q.status == "abort":
                 ctx.require(q, z3.Not(inside), "aborts only when the address is outside this sandbox")
+                w = [e for e in q.events if e[0] in ("st", "st-bulk")]
+                if w:
+                    ctx.fail(q, "sandbox memory was written (%r) although the address was refused" % (w[0],))
         vec = [[b0, b0 + 0x40 % size, a] for a in avs]
+    elif kind == "assignslot":
+        k = "k_assignslot_" + tag
+        slot = ctx.buffer(8, name="slot")
+        old = z3.Concat(*reversed(slot.init))
+        paths = ctx.run(k, [base, slot, addr])
+        for q in paths:
+            now = z3.Concat(*[ctx.eng.cbyte(q, slot.addr + i) for i in reversed(range(8))])
+            if q.status == "ret":
+                ctx.require(q, z3.And(inside, q.ret == addr, now == addr), "accepted only when the address is inside this sandbox; value unchanged")
+            elif q.status == "abort":
+                ctx.require(q, z3.And(z3.Not(inside), now == old), "aborts only when the address is outside this sandbox, and the tainted pointer keeps its previous value")
+        vec = None
     else:
         k = "k_%s_%s" % (kind, tag)
         paths = ctx.run(k, [base, addr])
@@ -52,7 +67,40 @@ def check_entry(ctx, kind, tag, log):
         vec = [[b0, a] for a in avs]
     ctx.only(paths, "ret", "abort")
     ctx.expect(paths, ret=1, abort=1)
-    ctx.validate(k, vec, base=b0)
+    if vec is not None:
+        ctx.validate(k, vec, base=b0)
+
+
+def check_life(ctx, k, phase):
+    """B32L: an entry point used on a sandbox object that is not created (never / destroyed) must refuse every address;
+    after re-creation at another base only the new region is accepted"""
+    size = 1 << 32
+    base = ctx.sandbox_base(32, "base")
+    base2 = ctx.sandbox_base(32, "base2")
+    ctx.assume(base != base2)
+    addr = ctx.sym("addr", 64)
+    args = [BV(phase, 32), base, base2]
+    if k == "k_life_assignvol":
+        cell = ctx.sym("cell", 64)
+        live = base2 if phase == 2 else base
+        ctx.assume(z3.UGE(cell, live), z3.ULE(cell - live, BV(size - 4, 64)))
+        args.append(cell)
+    args.append(addr)
+    paths = ctx.run(k, args)
+    inside = ctx.in_region(addr, base2, size) if phase == 2 else z3.BoolVal(False)
+    for q in paths:
+        if q.status == "ret":
+            ctx.require(q, inside, "an address is accepted only when it is inside the memory of a sandbox that is currently created")
+        elif q.status == "abort":
+            ctx.require(q, z3.Not(inside), "aborts only when the address is not inside the live sandbox")
+            w = [e for e in q.events if e[0] in ("st", "st-bulk")]
+            if w:
+                ctx.fail(q, "sandbox memory was written although the address was refused")
+    ctx.only(paths, "ret", "abort")
+    if phase == 2:
+        ctx.expect(paths, ret=1, abort=1)
+    else:
+        ctx.expect(paths, abort=1)
 
 
 def check_bm(ctx, k):
@@ -140,10 +188,13 @@ def jobs(tier, seed):
         for gi, grp in enumerate(C.chunks(TAGS, 3)):
             src = '#include "verif_sandbox.hpp"\nusing S = %s;\n#include "C02_kernels.inc"\n' % sbx
             chks = [dict(name="%s %s %s" % (sbx, kind, tag), fn=check_entry, kw=dict(kind=kind, tag=tag, log=log))
-                    for tag in grp for kind in ("assign", "accept", "assignvol")]
+                    for tag in grp for kind in ("assign", "accept", "assignvol", "assignslot")]
             out.append(Job("C02_%s_%d" % (sbx, gi), src, chks))
     out.append(Job("C02_B32_mi", '#include "verif_sandbox.hpp"\nusing S = B32;\n#include "C02_kernels.inc"\n',
                    [dict(name="B32 " + k, fn=check_mi, kw=dict(k=k)) for k in ("k_assign_mi", "k_assignvol_mi")], native=False))
+    lsrc = '#include "verif_sandbox.hpp"\nusing S = B32L;\n#include "C02_life.inc"\n'
+    for k in ("k_life_accept", "k_life_assign", "k_life_assignvol"):
+        out.append(Job("C02_B32L_" + k, lsrc, [dict(name="B32L %s phase=%d" % (k, ph), fn=check_life, kw=dict(k=k, phase=ph)) for ph in (0, 1, 2)], native=False))
     ssrc = '#include "verif_sandbox.hpp"\nusing S = B32S;\n#include "C03_small.inc"\n'
     out.append(Job("C02_B32S", ssrc, [dict(name="B32S " + k, fn=check_small, kw=dict(k=k)) for k in ("k_small_accept", "k_small_assign", "k_small_assignvol")], native=False))
     for k in ("k_bm_assign", "k_bm_accept", "k_bm_assignvol"):
